@@ -23,13 +23,19 @@ REGISTRY["C14"] = {
              "while another has not been matched yet; for plain multiple: >=2 definitions. Distinct = distinct (configuration, history). "
              "TestC14Process drives the same histories through a real process (catch event with 1..4 definitions, parallelMultiple or not, "
              "optionally behind a task so that events also arrive before the catch event is armed) against the reference model: "
-             "process level non-trivial = >=2 definitions and >=2 events."),
+             "process level non-trivial = >=2 definitions and >=2 events. TestC14Loop puts a parallel-multiple catch event (2..3 definitions) in a loop so that it listens "
+             "again and again with periods in between in which it does not listen; one event at a time, the firing observed at the fixpoint, and the invariants "
+             "(F<=min c_i, all c_i=k => F=k, at most one firing per event, no firing on a non-matching event or while not listening) evaluated over the events delivered "
+             "while the node listened - matches in surplus at a firing keep counting for later periods, events outside a listening period never count; "
+             "non-trivial = >=2 listening periods and >=2 firings."),
     "assumptions": ["definitions of one catch event have distinct references (two definitions matching the same event are outside the statement)"],
     "tests": [
         {"name": "TestC14Exhaustive", "mode": "plain", "shards": {"quick": 1, "thorough": 1}},
         {"name": "TestC14Random", "mode": "rapid", "checks": {"quick": 3000, "thorough": 100000},
          "shards": {"quick": 4, "thorough": 16}},
         {"name": "TestC14Process", "mode": "rapid", "checks": {"quick": 300, "thorough": 6000},
+         "shards": {"quick": 4, "thorough": 16}},
+        {"name": "TestC14Loop", "mode": "rapid", "checks": {"quick": 300, "thorough": 6000},
          "shards": {"quick": 4, "thorough": 16}},
     ],
 }
